@@ -1,7 +1,8 @@
 /- C09 — every policy is a coherent probability distribution over actions (umbrella module).
    a: sums, row validity, dense sampler   b: greedy   c: softmax, epsilon, LRP   d: WoLF, projection, PGA-APP
    e: Thompson kernel   f: swap-and-pop lists, SuccessiveRejects, ESRL   g: TopTwo / T3C kernels
-   h: greedy on clustered rows (ties inside the tolerances, large magnitudes), maximum-first repair -/
+   h: greedy on clustered rows (ties inside the tolerances, large magnitudes), maximum-first repair
+   i: Monte-Carlo tables (Thompson / TopTwo / T3C getPolicy, getActionProbability) -/
 import AITB.Props.C09a
 import AITB.Props.C09b
 import AITB.Props.C09c
@@ -10,3 +11,4 @@ import AITB.Props.C09e
 import AITB.Props.C09f
 import AITB.Props.C09g
 import AITB.Props.C09h
+import AITB.Props.C09i
